@@ -68,14 +68,15 @@ CHECKS = {
          'Trusted: Coq kernel + vm_compute, Interval tactic, real-number axioms; float32 tolerance 3e-6 relative; sklearn clipping below 1e-6 is outside the quantifier.'),
 
  'C11': ('DESIGN.md §4 C11',
-         'Coq soundness proof of an attribute-flow (taint) analysis over traces regenerated from the source by an AST translator + vm_compute of the analysis on the regenerated traces + bitwise differential of source / loaded / twice-loaded models',
+         'Coq soundness proof of an attribute-flow (taint) analysis over traces regenerated from the source by an AST translator + vm_compute of the analysis on the regenerated traces + axiom-free Coq round-trip theorem for the tree part of the state dict (export / load / prediction-read tables regenerated from the source by the stateops translator, table condition decided by vm_compute, theorem instantiated at the regenerated tables on every run; the model\'s export / load evaluated in Coq on real fitted trees) + bitwise differential of source / loaded / twice-loaded models',
          'Theorem: if the analysis accepts the prediction trace from the restored attribute set, any two objects agreeing on constructor-only and restored attributes read identical values in identical order (so a fresh model that loaded the state predicts like the source); a trace without writes leaves the object unchanged. '
+         'Tree round trip (StateDict): for every fitted tree shape, payload and training matrix, loading the exported tree succeeds and prediction reads on it what it read on the source (node entries with the same defaults, children, restored leaf attributes, centres gathered from the index lists), the loaded tree is again a fitted tree, a second export does not raise, a load of a load reads the same. '
          'Per run the traces of predict/predict_proba/get_grads/get_state_dict/load_state_dict/fit (model and leaf level) are re-translated and the obligations re-evaluated in Coq; the export/import key tables are cross-checked; predictions are compared bitwise across kernels, task types, encodings, depths, overlap, tuned/fixed temperature, load of a load.',
          'partial: numerical equality is observed (bitwise) not proved. Trusted: Coq kernel + vm_compute, the translator (fail-closed) and its justified exemption list (leaf: is_adaptive_bandwidth, solver, class_converter*).'),
  'C17': ('DESIGN.md §4 C17',
          'Coq soundness proof of the attribute-flow analysis (history independence) and of a seeded-generator model + vm_compute of the analysis on traces regenerated from the source (both values of use_temperature_tuning) + differential refits / reseeding',
          'Theorem: if the analysis accepts fit;predict from the empty clean set, a fresh object and an arbitrarily used one that agree on constructor-only attributes read and write identical values; seeding erases all earlier RNG history. '
-         'Per run the trace of xRFM.fit is re-translated (2315 events) and analysed in Coq, RNG call sites are listed (private generators fail closed); predictions are compared bitwise for same-seed fits after 0..10^4 prior draws and for refits after 1-2 earlier fits incl. a tie-forcing accuracy scenario.',
+         'Per run the trace of xRFM.fit is re-translated (2315 events) and analysed in Coq, RNG call sites are listed (private generators fail closed; every call into scipy / sklearn must be a known deterministic function); predictions are compared bitwise for same-seed fits after 0..10^4 prior draws and for refits after 1-2 earlier fits incl. a tie-forcing accuracy scenario.',
          'partial: bit-identity and the RNG library behaviour are observed. Trusted: Coq kernel + vm_compute, translator, exemptions (tuning_metric, class_converter_*), the case split on the constructor-only flag use_temperature_tuning.'),
 
  'C18': ('DESIGN.md §4 C18',
@@ -102,7 +103,7 @@ CHECKS = {
          'partial: that torch.func.jacrev returns the partial derivatives of the closure it is given is PyTorch\'s contract (checked numerically per instance — this is how the multi-output cdist/vmap defect was found). Trusted: Coq kernel, Coquelicot, Interval, real-number axioms, mpmath, the gradops translator.'),
 
  'C14': ('DESIGN.md §4 C14',
-         'Coq proofs over Q (entrywise matrix algebra on lists) of the AGOP accumulation model + refutation witness for centred accumulation + update_M / fit_M and the per-batch reductions re-translated from the source each run (agopops, gradops) + vm_compute of the model on the gradients the implementation itself returns',
+         'Coq proofs over Q (entrywise matrix algebra on lists) of the AGOP accumulation model + real-valued composition theorem with the gradient theorems of C04 (L2 kernel: accumulated matrix = sum over outputs and points of outer products of the true derivative of the leave-own-terms-out predictor) + refutation witness for centred accumulation + update_M / fit_M and the per-batch reductions re-translated from the source each run (agopops, gradops) + vm_compute of the model on the gradients the implementation itself returns',
          'Theorems for every number of points/outputs/dimension and every batch size: the accumulated matrix is the sum of gradient outer products, independent of the batch size (no centring), symmetric, positive semi-definite (x^T M x = sum (g.x)^2), diagonal mode = its diagonal, normalised entries <= 1. With centring ON the statement is refuted in the model (witness) and on the implementation (known finding). '
          'fit_M(inplace=False) of small fitted leaves (all CPU kernels, diag/full, 1-3 outputs, batch sizes 1..n+5) is compared with the Q model evaluated in Coq on the implementation\'s own get_function_grads output; root squares back; agop_best_model is the AGOP of the returned predictor.',
          'partial: matrix root (SVD) is a contract (checked numerically), gradient values are C04; the 1e-8 diagonal ridge that the matrix-power routine adds in place is accepted with or without (the property does not ask for it); get_agop / get_agop_diag reductions are re-translated from the source each run (gradops). KNOWN FINDING: center_grads=True is batch-size dependent.'),
